@@ -1,6 +1,8 @@
 //! Native replay / replay-search binary.  Built against the *current* /repo tree with --cfg rtcm_rs_verif.
 //! usage: replay search <kind> <seed> <budget>   |   replay rerun <kind> <hex-input> [cuts,comma,separated]
 mod l3;
+mod fields;
+mod fields_gen;
 
 pub struct Rng(pub u64);
 impl Rng {
@@ -181,9 +183,52 @@ fn main() {
             "iter" => search_scan(&mut rng, budget, "iter"),
             "chunks" => search_chunks(&mut rng, budget),
             "corrupt" => search_corrupt(&mut rng, budget),
+            "lossless" | "quant" => {
+                let only = a.get(5).cloned();
+                let mut n = 0u64;
+                for f in fields_gen::all() {
+                    if let Some(o) = &only { if o != f.name { continue; } }
+                    if a[2] == "lossless" {
+                        match fields::search_lossless(&f, &mut rng, budget) {
+                            Ok(k) => n += k,
+                            Err((p, why)) => { println!("FOUND {{\"kind\":\"lossless\",\"field\":\"{}\",\"input_hex\":\"{:x}\",\"cuts\":[],\"observed\":{:?},\"evaluations\":{}}}", f.name, p, why, n); std::process::exit(0) }
+                        }
+                    } else {
+                        match fields::search_quant(&f, &mut rng, budget) {
+                            Ok(k) => n += k,
+                            Err((x, why)) => { println!("FOUND {{\"kind\":\"quant\",\"field\":\"{}\",\"input_hex\":\"{:x}\",\"cuts\":[],\"observed\":{:?},\"evaluations\":{}}}", f.name, x.to_bits(), why, n); std::process::exit(0) }
+                        }
+                    }
+                }
+                n
+            }
             k => { eprintln!("unknown kind {}", k); std::process::exit(2) }
         };
         println!("NONE evaluations={}", n);
+    } else if a.len() >= 5 && a[1] == "rerun" && (a[2] == "lossless" || a[2] == "quant") {
+        // replay rerun lossless <field> <pattern-hex> | replay rerun quant <field> <f64-bits-hex>
+        let v = u64::from_str_radix(&a[4], 16).unwrap();
+        for f in fields_gen::all() {
+            if f.name != a[3] { continue; }
+            let w = fields::width_of(&f).unwrap_or(0);
+            let r = if a[2] == "lossless" { fields::check_pattern(&f, w, v) } else {
+                let x = f64::from_bits(v);
+                // neighbours from the decoder: search the two grid points around x by encoding and probing +-1
+                let enc = (f.enc_f64)(x);
+                match enc { Err(e) => Some(format!("in-range input {:e} rejected: {}", x, e)), Ok((_, out)) => {
+                    let p = fields::bytes_pat(&out, w);
+                    let top = if w >= 64 { u64::MAX } else { (1u64 << w) - 1 };
+                    let val = |p: u64| match (f.dec)(&fields::pat_bytes(p & top, w)) { Ok((_, v, _)) => v, _ => None };
+                    let mut res = None;
+                    for (a_, b_) in [(p.wrapping_sub(1) & top, p), (p, p.wrapping_add(1) & top)] {
+                        if let (Some(lo), Some(hi)) = (val(a_), val(b_)) { if lo <= x && x <= hi { res = fields::check_quant(&f, w, x, lo, hi); break; } }
+                    }
+                    if res.is_none() { if let Some(back) = val(p) { let step = (val(1).unwrap_or(1.0) - val(0).unwrap_or(0.0)).abs(); if (back - x).abs() > step * 0.5000011 + x.abs() * 4e-7 { res = Some(format!("input {:e} decodes back to {:e}: farther than half a step {:e}", x, back, step / 2.0)); } } }
+                    res } }
+            };
+            match r { Some(w) => { println!("VIOLATED {}", w); std::process::exit(1) } None => { println!("HOLDS"); std::process::exit(0) } }
+        }
+        eprintln!("unknown field {}", a[3]); std::process::exit(2);
     } else if a.len() >= 4 && a[1] == "rerun" {
         let inp = unhex(&a[3]);
         let cuts: Vec<usize> = if a.len() > 4 && !a[4].is_empty() { a[4].split(',').filter_map(|x| x.trim().parse().ok()).collect() } else { vec![] };
